@@ -4,6 +4,18 @@ NOT_APPLICABLE = {('C%02d' % i): TODO for i in range(1, 21)}
 R_NOTE = ('R-model: floats are mathematical reals, float literals are the decimal rationals written in the source, '
           'transcendental functions are uninterpreted with sound axiom instances; IEEE rounding is outside the claim. ')
 CHECKS = {
+    'C14': {
+        'text': 'Wiring + formula by bounded symbolic execution + SMT: vincinv_utm, vincdir_utm (loop unrolled K=2), line_sf (same and cross zone), rho, '
+                'nu (real source) on symbolic grid coordinates, zones, both hemispheres and a symbolic ellipsoid with grid2geo/geo2grid/vincinv/'
+                'vincdir(/line_sf) as argument-recording uninterpreted summaries: grid distance = distance x line scale factor, bearings = '
+                'azimuth + convergence of each end in its own zone, hemisphere/ellipsoid forwarded everywhere, direct computation = bearing - '
+                'convergence, distance / lsf, re-projection in zone 1; line_sf = Deakin eq. 13 with r^2 = rho nu k0^2 at the mean latitude; rho, nu '
+                '= closed forms.',
+        'design_ref': 'DESIGN.md section 7 C14',
+        'note': 'NOT claimed by a query (approximation-size statements over transcendental maps): direct reproduces the second point within 1 mm; '
+                'line scale factor within 3e-7 / 5e-7 of the point-scale range / Simpson mean. The replay oracle measures both on real lines.',
+        'technique': 'symbolic execution of the real Python source with callee summaries + SMT (z3 EUF/NRA), witness replay',
+    },
     'C13': {
         'text': 'Wiring by bounded symbolic execution + SMT: transform_mga94_to_mga2020 / transform_mga2020_to_mga94 (real source) on symbolic zone, '
                 'easting, northing, height (symbolic incl. 0, absent) and covariance (opaque 3x3, absent) with the seven callees replaced by '
